@@ -1,5 +1,7 @@
 """C18 - run records describe the run that produced the stored result."""
-from ..core import Prop
+from pathlib import Path
+
+from ..core import Prop, Suite
 from ..suites_hist import Histories, history_oracle, chain_obs, reference_chains
 from .. import pipeline as pl
 
@@ -118,9 +120,149 @@ class Records(Histories):
         return records_oracle(case, obs) or history_oracle(case, obs, self.checks)
 
 
+BODY_SRC = '''
+from typing import Generator
+from taskchain import Task, Parameter, DirData
+from taskchain.task import ModuleTask
+
+STATE = {'n': 0}
+
+def _tick(task):
+    STATE['n'] += 1
+    STATE[task.slugname] = STATE['n']
+    return STATE['n']
+
+class Plain(Task):
+    class Meta:
+        parameters = [Parameter('k')]
+    def run(self, k) -> dict:
+        n = _tick(self)
+        self.logger.info(f'tok {n} first')
+        self.save_to_run_info({'r': n, 'i': 0})
+        self.logger.warning(f'tok {n} second')
+        self.save_to_run_info(f'rec {n}')
+        return {'n': n}
+
+class Gen(Task):
+    class Meta:
+        parameters = [Parameter('k')]
+    def run(self, k) -> Generator:
+        n = _tick(self)
+        self.logger.info(f'tok {n} before')
+        self.save_to_run_info({'r': n, 'i': 0})
+        for i in range(k):
+            self.logger.info(f'tok {n} item {i}')
+            yield {'i': i}
+        self.logger.info(f'tok {n} after')
+        self.save_to_run_info(f'rec {n}')
+
+class Dirs(Task):
+    class Meta:
+        parameters = [Parameter('k')]
+    def run(self, k) -> DirData:
+        n = _tick(self)
+        d = self.get_data_object()
+        self.logger.info(f'tok {n} first')
+        (d.dir / 'f.txt').write_text(str(n))
+        self.save_to_run_info({'r': n, 'i': 0})
+        self.logger.info(f'tok {n} second')
+        self.save_to_run_info(f'rec {n}')
+        return d
+
+class Down(Task):
+    class Meta:
+        input_tasks = ['plain', 'gen']
+    def run(self) -> dict:
+        n = _tick(self)
+        self.logger.info(f'tok {n} first')
+        vals = {name: (list(t.value) if name == 'gen' else str(t.value)) for name, t in self.input_tasks.items()}
+        self.logger.info(f'tok {n} second')
+        self.save_to_run_info({'r': n, 'i': 0})
+        self.save_to_run_info(f'rec {n}')
+        return {'n': n}
+'''
+
+EXPECT = {'plain': ['first', 'second'], 'dirs': ['first', 'second'], 'down': ['first', 'second']}
+
+
+class RunBodies(Suite):
+    """hand-written run bodies - plain, a generator function (its body runs while the result is stored), a directory
+    task, a task that requests its inputs in the middle of run: after every successful run (first, forced, in a new
+    chain after deletion) the log holds the messages of that run, all of them, in order, and nothing else; run info
+    holds its records in order.  Runtime check only."""
+    name = 'run_bodies'
+    model = ''
+
+    def gen(self, rng, tier):
+        out = []
+        for shape in ('plain', 'gen', 'dirs', 'down'):
+            for k in (0, 1, 3):
+                for hist in ('once', 'forced', 'forced_twice', 'new_chain_forced'):
+                    out.append(dict(shape=shape, k=k, hist=hist))
+        return out
+
+    def run_impl(self, case):
+        import importlib, sys, types
+        from taskchain import Config
+        from .. import pipeline as pl
+        with pl.workspace(dict(classes=[], files={})) as (d, _):
+            name = 'tcv_bodies'
+            m = types.ModuleType(name)
+            sys.modules[name] = m
+            try:
+                exec(compile(BODY_SRC, name, 'exec'), m.__dict__)
+                cls = {'plain': ['Plain'], 'gen': ['Gen'], 'dirs': ['Dirs'], 'down': ['Plain', 'Gen', 'Down']}[case['shape']]
+                def chain():
+                    return Config(Path('data'), name='c', data={'tasks': [f'{name}.{c}' for c in cls], 'k': case['k']}).chain()
+                tname = {'plain': 'plain', 'gen': 'gen', 'dirs': 'dirs', 'down': 'down'}[case['shape']]
+                ch = chain()
+                def consume(t):
+                    v = t.value
+                    return list(v) if tname == 'gen' else None
+                consume(ch[tname])
+                rounds = {'once': 0, 'forced': 1, 'forced_twice': 2, 'new_chain_forced': 1}[case['hist']]
+                for _ in range(rounds):
+                    if case['hist'] == 'new_chain_forced':
+                        ch = chain()
+                    ch.force(tname)
+                    consume(ch[tname])
+                t = chain()[tname]
+                return dict(log=t.log, records=(t.run_info or {}).get('log'), last=m.STATE[tname],
+                            others={n: chain()[n].log for n in chain().tasks if n != tname})
+            finally:
+                sys.modules.pop(name, None)
+
+    def oracle(self, case, obs):
+        if 'unexpected_exception' in obs:
+            return f'unexpected exception {obs["unexpected_exception"]}: {obs["text"]}'
+        n = obs['last']
+        if case['shape'] == 'gen':
+            want = ['before'] + [f'item {i}' for i in range(case['k'])] + ['after']
+        else:
+            want = ['first', 'second']
+        toks = [l.split('tok ', 1)[1] for l in (obs['log'] or []) if 'tok ' in l]
+        mine = [f'{n} {w}' for w in want]
+        if toks != mine:
+            return (f'{case}: the log after the latest run (number {n}) holds the messages {toks}; that run logged {mine}')
+        recs = obs['records']
+        if recs != [{'r': n, 'i': 0}, f'rec {n}']:
+            return f'{case}: the records after the latest run (number {n}) are {recs}'
+        for other, lg in (obs.get('others') or {}).items():
+            for l in lg or []:
+                if 'tok ' in l and not l.split('tok ', 1)[1].split(' ')[0].isdigit():
+                    return f'{case}: malformed token in the log of {other}: {l}'
+        return None
+
+    def nontrivial(self, case, obs):
+        return case['hist'] != 'once' or case['shape'] in ('gen', 'down')
+
+    def key(self, case):
+        return repr(case)
+
+
 class C18(Prop):
     pid = 'C18'
-    suites = [Records()]
+    suites = [Records(), RunBodies()]
     assumptions = ['timestamps, user name, library version, class and module names are abstracted away',
                    'the framing lines of the log (run started / run ended) are abstracted: the messages logged by run '
                    'are the tokens']
